@@ -1,10 +1,10 @@
-\* (L): one reservation whose reserved dimension set changes while two pods come and go
+\* the code as shipped: a bound pod delivered before the reservation it is annotated with is dropped (no orphanPods) -> the reservation that arrives later reports nothing allocated: InvL fails
 SPECIFICATION Spec
 CONSTANTS
   Nodes = {"n1"}
   Uids = {"r1"}
   Pods = {"p1", "p2"}
-  RSpecs <- LedgerSpecs
+  RSpecs <- LedgerSpecs1
   Reqs <- ReqsL
   PodAttr <- PA2
   TermPhases = {"Failed"}
@@ -12,14 +12,13 @@ CONSTANTS
   DeadVals = {FALSE, TRUE}
   FixLedger = TRUE
   FixNominate = TRUE
-  FixOrphan = TRUE
+  FixOrphan = FALSE
   AllowMigrate = FALSE
   Recording = FALSE
   K = 0
 VIEW MCView
 INVARIANT TypeOK
 INVARIANT InvL
-INVARIANT InvR
 INVARIANT InvX1
 INVARIANT InvX2
 INVARIANT InvO
